@@ -239,6 +239,16 @@ def _reconnect_verdict(model, r, st, commit=False):
     return "ok", len(gone) - 1
 
 
+POS_POKES = {"L": [("overlap", "1Q"), ("from_orient", "x"), ("to_orient", "")],
+             "C": [("pos", "-1"), ("overlap", "1Q"), ("from_orient", "?")],
+             "P": [("overlaps", "1M,,"), ("segment_names", "a+,+")],
+             "E": [("beg1", "x"), ("alignment", "1Q"), ("end2", "5$$")],
+             "G": [("disp", "x"), ("var", "-")],
+             "F": [("external", "r+ r+"), ("s_beg", "x"), ("f_end", "$")],
+             "O": [("items", "a+ b")],
+             "U": [("items", "a  b")]}
+
+
 def _gen_probe_step(rng, sim, named):
     """a line which mentions identifiers in roles their carriers cannot play (a path through
     another path's name, an edge between a group and a segment, ...), possibly among valid and
@@ -286,6 +296,19 @@ def _gen_probe_step(rng, sim, named):
         poke = rng.choice([("x", 1), ("xyz", "a"), ("1a", 2), ("aa", "a\tb"), ("bb", float("inf")), ("LN", "q")])
         groups = [(n, x) for n, x in named if x.rt in ("O", "U")]
         fresh = [f for f in FRESH if f not in sim.names()]
+        if segs and fresh and rng.random() < 0.5:
+            # ... or a positional field which was given, after the line was built, a string that is
+            # not of its datatype (read only when the line is filed)
+            a, b = rng.choice(segs), rng.choice(segs)
+            f0 = fresh[0]
+            tmpl = {"gfa1": {"L": "L\t%s\t+\t%s\t-\t*" % (a, b), "C": "C\t%s\t+\t%s\t-\t0\t*" % (a, b),
+                             "P": "P\t%s\t%s+,%s-\t*" % (f0, a, b)},
+                    "gfa2": {"E": "E\t%s\t%s+\t%s-\t0\t1\t0\t1\t*" % (f0, a, b), "G": "G\t%s\t%s+\t%s-\t5\t*" % (f0, a, b),
+                             "F": "F\t%s\tread1+\t0\t1\t0\t1\t*" % a, "O": "O\t%s\t%s+" % (f0, a),
+                             "U": "U\t%s\t%s" % (f0, a)}}[v]
+            rt = rng.choice(sorted(tmpl))
+            poke = rng.choice(POS_POKES[rt])
+            return {"op": "add", "line": tmpl[rt], "as": rng.choice(["line0", "line"]), "poke": list(poke), "expect": "probe"}
         if v == "gfa2" and groups and segs and rng.random() < 0.6:
             n, x = rng.choice(groups)
             line = "%s\t%s\t%s" % (x.rt, n, rng.choice(segs) + ("+" if x.rt == "O" else ""))
